@@ -27,6 +27,7 @@ mod common;
 use common::*;
 use harness::util::*;
 use radix_common::prelude::*;
+use radix_transactions::manifest::*;
 use radix_transactions::model::*;
 use radix_transactions::prelude::*;
 use std::io::Write;
@@ -561,7 +562,8 @@ impl Area for A {
                 }
                 6 => {
                     // trailing bytes
-                    let extra = rng.bytes(1 + rng.below(3) as usize);
+                    let ne = 1 + rng.below(3) as usize;
+                    let extra = rng.bytes(ne);
                     p.extend(extra);
                 }
                 7 => {
